@@ -423,7 +423,7 @@ func (d *Document) updateNumberingFile() {
 // addNumberingRelationship 添加编号关系
 func (d *Document) addNumberingRelationship() {
 	// 生成关系ID
-	relationshipID := fmt.Sprintf("rId%d", len(d.documentRelationships.Relationships)+2) // +2 因为已有样式styles.xml定义
+	relationshipID := d.nextDocumentRelationshipID() // +2 因为已有样式styles.xml定义
 
 	// 添加关系
 	relationship := Relationship{
